@@ -58,6 +58,10 @@ def search(rep, tier, seed, reason=""):
     for k in range(2 if tier == "quick" else 6):
         if wake.oracle_ready_without_wake(rep, "quick", seed * 13 + k + 1, name="ready-without-wake-search") > 0:
             return True
+        # push-promise, response and reset waits live on the client side; they are rare in mixed scripts, so look at many
+        if wake.oracle_ready_without_wake(rep, "quick", seed * 17 + k + 5, profiles=("mixed", "pushlimit", "reset", "lastframe", "mixed", "pushlimit"),
+                                          name="ready-without-wake-search(client)", per=200, role="client") > 0:
+            return True
     for k in range(3 if tier == "quick" else 12):
         for pi, prof in enumerate(("queue", "bufcap", "starve", "legal", "limits", "flow", "recv", "mixed", "bp")):
             scs, _ = wake.run_coop(seed * 15485863 + k * 131 + pi, 80, 130, prof, trace=False, budget=5000)
